@@ -127,10 +127,11 @@ class Parser:
         if self.peek() == "Mor" and self.peek(1) == "(":
             self.next(); self.next(); n = self.ident(); self.expect(")")
             return {"mor": n}
-        # member type expressions (term.Type) are outside the supported fragment
         n = self.ident()
         if self.peek() == ".":
-            raise ParseError("member type expressions are outside the reference fragment")
+            # member type expression  <variable>.<Type>
+            self.next(); m = self.ident()
+            return {"member_type": m, "of": {"var": n}}
         return {"type": n}
 
     # ---- statements
@@ -184,7 +185,9 @@ class Parser:
                 else:
                     raise ParseError("member type expressions are outside the reference fragment")
             elif self.peek() == "@":
-                raise ParseError("morphism application is outside the reference fragment")
+                # morphism application  f@(x)
+                self.next(); self.expect("("); a = self.term(); self.expect(")")
+                t = {"app": "$morapp", "args": [t, a]}
             else:
                 return t
 
@@ -224,7 +227,7 @@ class Parser:
             self.next(); ty = self.type_expr()
             return {"typed": t, "type": ty}
         if "app" in t:
-            return {"pred": t["app"], "args": t["args"]}
+            return {"pred": t["app"], "args": t["args"], "member": t.get("member", False)}
         raise ParseError(f"malformed if atom near line {self.line()}")
 
     def then_atom(self):
@@ -240,7 +243,7 @@ class Parser:
             self.next()
             return {"defined": t}
         if "app" in t:
-            return {"pred": t["app"], "args": t["args"]}
+            return {"pred": t["app"], "args": t["args"], "member": t.get("member", False)}
         raise ParseError(f"malformed then atom near line {self.line()}")
 
 
@@ -251,7 +254,17 @@ class Parser:
 def type_name(te, models):
     if "mor" in te:
         return te["mor"] + "Mor"
+    if "member_type" in te:
+        raise ParseError("dependent member types in signatures are outside the reference fragment")
     return te["type"]
+
+
+def membership_rel_name(model, member_type):
+    return f"{snake(model)}_member_{snake(member_type)}"
+
+
+def mor_app_rel_name(member_type):
+    return f"{snake(member_type)}_mor_app"
 
 
 def build_signature(decls):
@@ -270,6 +283,10 @@ def build_signature(decls):
             add_type(d["name"], "enum")
         elif d["k"] == "model":
             add_type(d["name"], "model")
+            for m in d["members"]:
+                if m["k"] == "type":
+                    # a member type is a global sort plus a membership predicate (itself a member relation)
+                    add_type(m["name"], "plain", member_of=d["name"], membership=membership_rel_name(d["name"], m["name"]))
     for d in decls:
         if d["k"] == "model":
             add_type(d["name"] + "Mor", "mor", model=d["name"])
@@ -296,12 +313,23 @@ def build_signature(decls):
                     rels.append(dict(name=m["name"], kind="pred", arity=[d["name"]] + [tn(a) for a in m["args"]], ctor_of=None, member_of=d["name"]))
                 elif m["k"] == "func":
                     rels.append(dict(name=m["name"], kind="func", arity=[d["name"]] + [tn(a) for a in m["args"]] + [tn(m["result"])], ctor_of=None, member_of=d["name"]))
+                elif m["k"] == "type":
+                    rels.append(dict(name=membership_rel_name(d["name"], m["name"]), kind="pred", arity=[d["name"], m["name"]], ctor_of=None,
+                                     member_of=d["name"], membership_for=m["name"]))
+                elif m["k"] == "rule":
+                    pass
                 else:
-                    raise ParseError("only member predicates and functions over global types are in the reference fragment")
+                    raise ParseError("only member types, predicates, functions and rules are in the reference fragment")
     for m in models:
         ms = snake(m)
         rels.append(dict(name=f"{ms}_mor_dom", kind="func", arity=[m + "Mor", m], ctor_of=None, member_of=None, mor_sig="dom"))
         rels.append(dict(name=f"{ms}_mor_cod", kind="func", arity=[m + "Mor", m], ctor_of=None, member_of=None, mor_sig="cod"))
+    for d in decls:
+        if d["k"] == "model":
+            for m in d["members"]:
+                if m["k"] == "type":
+                    rels.append(dict(name=mor_app_rel_name(m["name"]), kind="func", arity=[d["name"] + "Mor", m["name"], m["name"]], ctor_of=None,
+                                     member_of=None, mor_app_of=m["name"]))
     names = [r["name"] for r in rels]
     if len(set(names)) != len(names):
         raise ParseError("relation names collide after flattening")
@@ -325,12 +353,31 @@ class Lowering:
             if r.get("src_name"):
                 self.rel_by_name[r["src_name"]] = r
         self.fresh = 0
+        # set while the rules declared inside `model M { .. }` are lowered: member symbols without a
+        # receiver refer to the implicit model element
+        self.inside_model = None
+        self.self_var = {"var": "self'"}
+
+    def _implicit_receiver(self, name, args, is_pred):
+        rel = self.rel_by_name.get(name)
+        if self.inside_model and rel is not None and rel.get("member_of") == self.inside_model:
+            want = len(rel["arity"]) - (0 if is_pred else 1)
+            if len(args) == want - 1:
+                return [self.self_var] + args
+        return args
 
     def resolve_term(self, t):
         if "var" in t or "wild" in t:
             return t
         name = t["app"]
         args = [self.resolve_term(a) for a in t["args"]]
+        if name == "$morapp":
+            apps = [r for r in self.rels if r.get("mor_app_of")]
+            if len(apps) != 1:
+                raise ParseError("morphism application needs exactly one member type in the reference fragment")
+            return {"app": apps[0]["name"], "args": args}
+        if not t.get("member"):
+            args = self._implicit_receiver(name, args, False)
         if name in ("$dom", "$cod"):
             # the model is determined by typing later; with one model type per theory it is unique
             mors = [x for x in self.types if x["kind"] == "mor"]
@@ -346,7 +393,10 @@ class Lowering:
         if "pred" in a:
             if a["pred"] not in self.rel_by_name:
                 raise ParseError(f"undeclared predicate {a['pred']}")
-            return {"pred": self.rel_by_name[a["pred"]]["name"], "args": [self.resolve_term(x) for x in a["args"]]}
+            args = [self.resolve_term(x) for x in a["args"]]
+            if not a.get("member"):
+                args = self._implicit_receiver(a["pred"], args, True)
+            return {"pred": self.rel_by_name[a["pred"]]["name"], "args": args}
         if "eq" in a:
             return {"eq": [self.resolve_term(a["eq"][0]), self.resolve_term(a["eq"][1])]}
         if "defined" in a:
@@ -355,7 +405,18 @@ class Lowering:
                 out["bind"] = a["bind"]
             return out
         if "typed" in a:
-            return {"typed": a["typed"], "type": type_name(a["type"], None)}
+            te = a["type"]
+            mt = None
+            if "member_type" in te:
+                mt, recv = te["member_type"], te["of"]
+            elif "type" in te and self.inside_model and any(x["name"] == te["type"] and x.get("member_of") == self.inside_model for x in self.types):
+                mt, recv = te["type"], self.self_var
+            if mt is not None:
+                ty = [x for x in self.types if x["name"] == mt and x.get("member_of")]
+                if not ty:
+                    raise ParseError(f"undeclared member type {mt}")
+                return {"pred": ty[0]["membership"], "args": [self.resolve_term(recv), self.resolve_term(a["typed"])]}
+            return {"typed": a["typed"], "type": type_name(te, None)}
         raise ParseError("bad atom")
 
     def linearise(self, stmts):
@@ -589,34 +650,57 @@ def lower(name, src):
     paths = []
     rules = []
     anon = 0
-    for d in decls:
-        if d["k"] != "rule":
-            continue
+    def lower_rule(d, model=None):
+        nonlocal anon
         rname = d["name"]
         if rname is None:
             anon += 1
             rname = f"anonymous_{anon}"
         rules.append(rname)
-        for p in lw.linearise(d["body"]):
+        body = d["body"]
+        lw.inside_model = model
+        if model is not None:
+            # a rule declared inside `model M` speaks about every element of M: implicit `if self: M`
+            body = [{"if": {"typed": dict(lw.self_var), "type": {"type": model}}, "line": d.get("line", 0)}] + body
+        for p in lw.linearise(body):
             vt = lw.type_path(p)
             paths.append({"rule": rname, "atoms": [{"kind": k, "atom": a, "line": ln} for k, a, ln in p], "vartypes": vt})
-    # built-in semantics of model declarations: member relations are inherited along morphisms
+        lw.inside_model = None
+
     for d in decls:
-        if d["k"] != "model":
+        if d["k"] == "rule":
+            lower_rule(d)
+        elif d["k"] == "model":
+            for m in d["members"]:
+                if m["k"] == "rule":
+                    lower_rule(m, d["name"])
+    # built-in semantics of model declarations: member relations (member predicates, member functions and the
+    # membership predicates of member types) are inherited along morphisms; components of a member type are
+    # replaced by their images under the morphism (the tuple is inherited only if those images are defined)
+    member_types = {t["name"] for t in types if t.get("member_of")}
+    for r in list(rels):
+        # (the membership predicate of a member type is not a member predicate or function: an element lives where it
+        # was created - `new_<type>(parent)`, or the natural parent of a value created by define_ / `!` - and the
+        # property does not claim that membership is pushed along morphisms; eqlog keeps no inherited copy of it)
+        if not r.get("member_of") or r.get("membership_for"):
             continue
-        for m in d["members"]:
-            xs = ", ".join(f"x{i}" for i in range(len(m["args"])))
-            if m["k"] == "pred":
-                text = f"rule inherit_{m['name']} {{ if a = dom(f); if b = cod(f); if a.{m['name']}({xs}); then b.{m['name']}({xs}); }}"
-            elif m["k"] == "func":
-                text = f"rule inherit_{m['name']} {{ if a = dom(f); if b = cod(f); if y = a.{m['name']}({xs}); then b.{m['name']}({xs}) = y; }}"
-            else:
-                continue
-            rd = Parser(text).decl()
-            for p in lw.linearise(rd["body"]):
-                vt = lw.type_path(p)
-                paths.append({"rule": f"(built-in) inheritance of {m['name']} along morphisms", "builtin": True,
-                              "atoms": [{"kind": k, "atom": a, "line": 0} for k, a, ln in p], "vartypes": vt})
+        comp = r["arity"][1:]
+        xs = [f"x{i}" for i in range(len(comp))]
+        ys = [f"y{i}" if ty in member_types else f"x{i}" for i, ty in enumerate(comp)]
+        maps = "".join(f" if y{i} = f@(x{i});" for i, ty in enumerate(comp) if ty in member_types)
+        if r["kind"] == "pred":
+            text = (f"rule inherit_{r['name']} {{ if a = dom(f); if b = cod(f); if {r['name']}(a, {', '.join(xs)});{maps} "
+                    f"then {r['name']}(b, {', '.join(ys)}); }}") if xs else \
+                   f"rule inherit_{r['name']} {{ if a = dom(f); if b = cod(f); if {r['name']}(a); then {r['name']}(b); }}"
+        else:
+            argx, argy = ", ".join(["a"] + xs[:-1]), ", ".join(["b"] + ys[:-1])
+            text = (f"rule inherit_{r['name']} {{ if a = dom(f); if b = cod(f); if {xs[-1]} = {r['name']}({argx});{maps} "
+                    f"then {r['name']}({argy}) = {ys[-1]}; }}")
+        rd = Parser(text).decl()
+        for p in lw.linearise(rd["body"]):
+            vt = lw.type_path(p)
+            paths.append({"rule": f"(built-in) inheritance of {r['name']} along morphisms", "builtin": True,
+                          "atoms": [{"kind": k, "atom": a, "line": 0} for k, a, ln in p], "vartypes": vt})
     has_bang = any(a["kind"] == "then" and "defined" in a["atom"] for p in paths for a in p["atoms"])
     return {"name": name, "types": types, "rels": rels, "rules": rules, "paths": paths,
             "surjective": not has_bang}
